@@ -70,11 +70,42 @@ const Matrix<double>& FullHmmTransitionMatrix::getPij() const
     }
 
     // The flag covers both the matrix and the equilibrium frequencies: update them together.
-    MatrixTools::pow(pij_, 256, tmpmat_);
-
-    for (size_t i = 0; i < vSimplex_.size(); ++i)
+    // Stationary distribution by state reduction (Grassmann, Taksar & Heyman 1985).
+    // All transition probabilities are positive here, and no subtraction is involved,
+    // so the result is accurate however slowly the chain mixes (a fixed matrix power is not).
+    size_t n = vSimplex_.size();
+    tmpmat_ = pij_;
+    for (size_t k = (n > 0 ? n - 1 : 0); k > 0; --k)
     {
-      eqFreq_[i] = tmpmat_(0, i);
+      double out = 0; // probability of leaving state k toward the states below k
+      for (size_t j = 0; j < k; ++j)
+      {
+        out += tmpmat_(k, j);
+      }
+      for (size_t i = 0; i < k; ++i)
+      {
+        tmpmat_(i, k) /= out;
+        for (size_t j = 0; j < k; ++j)
+        {
+          tmpmat_(i, j) += tmpmat_(i, k) * tmpmat_(k, j);
+        }
+      }
+    }
+    double sum = 1;
+    if (n > 0)
+      eqFreq_[0] = 1;
+    for (size_t k = 1; k < n; ++k)
+    {
+      eqFreq_[k] = 0;
+      for (size_t i = 0; i < k; ++i)
+      {
+        eqFreq_[k] += eqFreq_[i] * tmpmat_(i, k);
+      }
+      sum += eqFreq_[k];
+    }
+    for (size_t k = 0; k < n; ++k)
+    {
+      eqFreq_[k] /= sum;
     }
 
     upToDate_ = true;
